@@ -1,0 +1,83 @@
+//go:build verif
+
+// Contracts (property C14 / C10) for the rel functions used by the //seq array helpers in package
+// syntax that have no contract in verif_contracts.go. Comments only; read by /verif/engine (govc).
+// Owner: worker w-c14. ((Array).Values/Count/IsTrue/Shift are in verif_contracts.go.)
+package rel
+
+//@ func AsArray(v)
+//@   tags C10, C14
+//@   pure
+//@   returns (arr, is)
+//@   ensures isdef: is == (v is Array || v is EmptySet)
+//@   ensures arr: v is Array ==> arr == v.(Array)
+//@   ensures empty: !(v is Array) ==> len(arr.values) == 0 && arr.values.ref == 0 && arr.offset == 0 && arr.count == 0
+
+// NewBool returns the package-level True / False (= None); with the globalfacts of
+// verif_contracts.go their dynamic types are TrueSet / EmptySet.
+//@ func NewBool(b)
+//@   tags C10, C14
+//@   pure
+//@   ensures tt: b ==> result is TrueSet
+//@   ensures ff: !b ==> result is EmptySet
+
+// ---- Array enumerators (value_set_array.go) --------------------------------------------------------
+// nextItem(a, i, j): j is the position of the first item of a after position i (holes skipped)
+//@ spec nextItem(vals, i, j) = i < j && j < len(vals) && vals[j] != nil && (forall k in i+1..j :: vals[k] == nil)
+
+//@ func (Array).Enumerator(a)
+//@   tags C10, C14
+//@   assigns fresh-only
+//@   ensures kind: result is *arrayValueEnumerator
+//@   ensures init: fresh(result.(*arrayValueEnumerator)) && result.(*arrayValueEnumerator).a == a && result.(*arrayValueEnumerator).i == -1
+
+//@ func (Array).ArrayEnumerator(a)
+//@   tags C10, C14
+//@   assigns fresh-only
+//@   ensures kind: result is *arrayItemEnumerator
+//@   ensures init: fresh(result.(*arrayItemEnumerator)) && fresh(result.(*arrayItemEnumerator).arrayValueEnumerator) && result.(*arrayItemEnumerator).arrayValueEnumerator.a == a && result.(*arrayItemEnumerator).arrayValueEnumerator.i == -1
+
+//@ func (*arrayValueEnumerator).MoveNext(e)
+//@   tags C10, C14
+//@   assigns nothing
+//@   modifies rel.arrayValueEnumerator
+//@   requires e != nil && validArray(e.a) && -1 <= e.i && e.i < len(e.a.values)
+//@   ensures same: e.a == old(e.a)
+//@   ensures done: !result ==> e.i == old(e.i) && old(e.i) == len(e.a.values) - 1
+//@   ensures next: result ==> nextItem(e.a.values, old(e.i), e.i)
+//@   ensures step1: result && nnV(row(e.a.values), e.a.values.off, e.a.values.off + len(e.a.values)) ==> e.i == old(e.i) + 1
+//@   loop 0 invariant e.a == old(e.a) && old(e.i) <= e.i && e.i < len(e.a.values) - 1 && (forall k in old(e.i)+1..e.i+1 :: e.a.values[k] == nil)
+//@   loop 0 decreases len(e.a.values) - e.i
+
+//@ func (*arrayItemEnumerator).Current(e)
+//@   tags C10, C14
+//@   assigns nothing
+//@   requires e != nil && e.arrayValueEnumerator != nil && 0 <= e.arrayValueEnumerator.i && e.arrayValueEnumerator.i < len(e.arrayValueEnumerator.a.values)
+//@   ensures cur: result == e.arrayValueEnumerator.a.values[e.arrayValueEnumerator.i]
+
+// ---- set difference, as used by arrayTrimPrefix/arrayTrimSuffix (ops_set.go) ---------------------------
+// ASSUMED (trusted; body not verified: it goes through Array.Where with a closure and the generic set
+// machinery). Only the Array x Array case is specified (both call sites): every clause is guarded by arr2(a,b),
+// there is no precondition, so other callers (SymmetricDifference, ...) are not blocked and learn nothing.
+// Worker w-c01 verifies the body against the denotational contract (rel/verif_contracts_c01.go) in a
+// configuration without this file; integration (one header `func Difference(a, b)`) is main's decision.
+// For arrays Difference(a, b) = a.Where(v => !b.Has(v)): the items of a that b does not have at the same
+// index are kept in place (others become holes), then leading/trailing holes are trimmed; no item left
+// gives None. keepAt(a,b,i): item i of a.values survives.
+//@ spec keepAt(a, b, i) = a.values[i] != nil && !inArr(b, a.offset + i, a.values[i])
+// arr2: both operands are arrays. Their canonical form (needed: a's count decides None vs Array) is a conditional
+// precondition that every caller with canonical sets satisfies (implied by validSet / w-c01's va, vb), so it blocks nobody.
+//@ spec arr2(a, b) = a is Array && b is Array
+//@ func Difference(a, b)
+//@   trusted
+//@   assigns fresh-only
+//@   requires arrays: arr2(a, b) ==> (validArray(a.(Array)) && validArray(b.(Array)))
+//@   ensures kind: arr2(a, b) ==> (result is Array || result is EmptySet)
+//@   ensures none: arr2(a, b) && result is EmptySet ==> forall i in 0..len(a.(Array).values) :: !keepAt(a.(Array), b.(Array), i)
+//@   ensures shape: arr2(a, b) && result is Array ==> validArray(result.(Array)) && result.(Array).offset >= a.(Array).offset && result.(Array).offset - a.(Array).offset + len(result.(Array).values) <= len(a.(Array).values)
+//@   ensures items: arr2(a, b) && result is Array ==> forall k in 0..len(result.(Array).values) :: (keepAt(a.(Array), b.(Array), result.(Array).offset - a.(Array).offset + k) ==> result.(Array).values[k] == a.(Array).values[result.(Array).offset - a.(Array).offset + k]) && (!keepAt(a.(Array), b.(Array), result.(Array).offset - a.(Array).offset + k) ==> result.(Array).values[k] == nil)
+//@   ensures first: arr2(a, b) && result is Array ==> keepAt(a.(Array), b.(Array), result.(Array).offset - a.(Array).offset) && keepAt(a.(Array), b.(Array), result.(Array).offset - a.(Array).offset + len(result.(Array).values) - 1)   // = validArray(result) + items, stated for the ground terms
+//@   ensures before: arr2(a, b) && result is Array ==> forall i in 0..(result.(Array).offset - a.(Array).offset) :: !keepAt(a.(Array), b.(Array), i)
+//@   ensures after: arr2(a, b) && result is Array ==> forall i in (result.(Array).offset - a.(Array).offset + len(result.(Array).values))..len(a.(Array).values) :: !keepAt(a.(Array), b.(Array), i)
+
+// NewArray: contract in verif_contracts_c09.go (precondition notallholes: an all-hole argument would give a count-0 Array).
